@@ -260,6 +260,8 @@ class EngineSystem:
         self.trace = []
         self.seq = 0
         self.observe_c11 = observe_c11
+        self.second_consumer = bool(prog.get("second_consumer"))     # the driver may attach another stream consumer mid-run
+        self.consumers2 = self.consumers2_done = 0
         self.runtime = RecordingRuntime(self)
         self.W = compile_program(prog, self.rig)
         self.wf = self.W(timeout=prog.get("timeout"), disable_validation=not prog.get("validation", True),
@@ -344,6 +346,8 @@ class EngineSystem:
         self.run_no += 1
         self.outcome = None
         self.stream_done = False
+        self.consumers2 = 0            # further consumers attached while the run was live ...
+        self.consumers2_done = 0       # ... and how many of them have terminated (by the end of the stream or an error)
 
         async def consume(h):
             try:
@@ -414,6 +418,8 @@ class EngineSystem:
         if sleep_ms and og and self.outcome is None and self.slept < 3:
             out.append(["sleep", sleep_ms])      # a step body takes time
         if self.outcome is None and self.handler is not None:
+            if getattr(self, "second_consumer", False) and self.consumers2 < 1:
+                out.append(["consume2"])      # another task starts reading handler.stream_events() while the run is live
             if self.ext_sent < max_ext:
                 for (ty, target) in ext_menu:
                     k = 1 if ty.endswith("1") else 0
@@ -479,11 +485,28 @@ class EngineSystem:
             self.loop.quiesce()
         elif name == "advance":
             self.loop.advance_to(self.t0 + cmd[1] / 1000.0)
+        elif name == "consume2":
+            self.consumers2 += 1
+
+            async def consume2(h):
+                try:
+                    async for _ev in h.stream_events(expose_internal=True):
+                        pass
+                except asyncio.CancelledError:
+                    raise
+                except Exception as ex:  # noqa: BLE001   ("stream already consumed" is a fine way to terminate)
+                    self.log({"e": "stream2_error", "err": type(ex).__name__})
+                self.consumers2_done += 1
+                self.log({"e": "stream2_end"})
+            h = self.handler
+            self.loop.call_soon(lambda: self.loop.create_task(consume2(h)))
+            self.loop.quiesce()
         else:
             raise ValueError(cmd)
         self.log({"e": "quiet", "live": self.live_now(), "queued": self.queued_now(),
                   "open": [list(k) for k in self.rig.open_gates()],
-                  "done": self.outcome is not None, "stream_done": self.stream_done})
+                  "done": self.outcome is not None, "stream_done": self.stream_done,
+                  "consumers2": self.consumers2, "consumers2_done": self.consumers2_done})
 
     # ---- snapshots (C12/C31)
     def snapshot(self):
